@@ -16,7 +16,7 @@ from dv.l3 import L3Unit
 from dv import pyobj as O
 from dv import cextract
 
-SERVES = ("C19",)
+SERVES = ("C19", "C36")
 CATALOGUE = """# cython: language_level=3
 cdef object chain_lt(object a, object b, object c):
     return a < b < c
@@ -28,6 +28,12 @@ cdef int chain_if(object a, object b, object c) except -1:
 
 cdef object chain_eq4(object a, object b, object c, object d):
     return a == b <= c != d
+
+cdef object in_eq_int(object a, object b):
+    return a in b == 1
+
+cdef object str_eq_int(str a, str b):
+    return a == b == 1
 """
 LT, LE, EQ, NE = 0, 1, 2, 3
 
@@ -59,11 +65,32 @@ class Compare:
         return CV(node_type(n), r)
 
 
+class BoolFromLong:
+    """__Pyx_PyBool_FromLong(b): Py_True / Py_False (a new reference, never NULL)."""
+    def apply(self, ex, st, args, n):
+        from dv.cfe import node_type
+        r = ex.obj(st, node_type(n), "bool")
+        st.path.append(O.truth_of(r.off) == If(args[0].t != 0, 1, 0))
+        return r
+
+
+class BoolOrNullFromLong:
+    """__Pyx_PyBoolOrNull_FromLong(b): NULL for b < 0 (the error value of the comparison is passed through), else Py_True / Py_False."""
+    def apply(self, ex, st, args, n):
+        from dv.cfe import Ptr, node_type, mark_nullable
+        r = ex.fresh("bool_or_null")
+        b = args[0].t
+        st.path.append(And(r >= 0, (r == 0) == (b < 0), Implies(r >= 1, O.truth_of(r) == If(b != 0, 1, 0))))
+        return Ptr(node_type(n), "pyobj", mark_nullable(r))
+
+
 def _callees():
-    c = {}
+    c = {"__Pyx_PyBool_FromLong": BoolFromLong(), "__Pyx_PyBoolOrNull_FromLong": BoolOrNullFromLong()}
     for op in ("Eq", "Ne", "Lt", "Le", "Gt", "Ge"):
-        c["__Pyx_PyObject_Compare%s_object_object" % op] = Compare(False)
-        c["__Pyx_PyObject_CompareBool%s_object_object" % op] = Compare(True)
+        for t1 in ("object", "str", "int", "float", "bytes", "bytearray"):
+            for t2 in ("object", "str", "int", "float", "bytes", "bytearray"):
+                c["__Pyx_PyObject_Compare%s_%s_%s" % (op, t1, t2)] = Compare(False)
+                c["__Pyx_PyObject_CompareBool%s_%s_%s" % (op, t1, t2)] = Compare(True)
     return c
 
 
@@ -146,6 +173,42 @@ print(bad)
             "how": "catalogue compiled by the working-tree compiler; (outcome, event log) compared with the same expression run by CPython"}
 
 
+def _post_null(e):
+    return (e.err != 0) == (e.result_id is None) if e.result_id is None else ((e.err != 0) == (e.result_id == 0))
+
+
+def _native_int(model, ob=None):
+    import os
+    import subprocess
+    text = CATALOGUE + "\ndef py_in_eq_int(a, b): return in_eq_int(a, b)\ndef py_str_eq_int(a, b): return str_eq_int(a, b)\n"
+    try:
+        ctext, cfile = cextract.compile_pyx(text, name="dvchainint")
+    except Exception as ex:
+        return {"confirmed": False, "note": "compile failed: %r" % ex}
+    d = os.path.dirname(cfile)
+    p = subprocess.run(["clang", "-shared", "-fPIC", "-O0", "-w", "-I" + cextract.PY_INCLUDE, cfile, "-o", os.path.join(d, "dvchainint.so")],
+                       capture_output=True, text=True)
+    if p.returncode != 0:
+        return {"confirmed": False, "note": "build failed " + p.stderr[-300:]}
+    code = r'''
+import sys; sys.path.insert(0, %r); import dvchainint as m
+class S(list):
+    def __eq__(self, o): return o == 1
+    __hash__ = None
+bad = []
+for name, f, ref, args in (("a in b == 1", m.py_in_eq_int, lambda a, b: bool(a in b == 1), (1, S([1]))), ("a in b == 1", m.py_in_eq_int, lambda a, b: bool(a in b == 1), (2, S([1]))),
+                           ("a == b == 1 (str)", m.py_str_eq_int, lambda a, b: bool(a == b == 1), ("x", "x"))):
+    got, want = bool(f(*args)), ref(*args)
+    if got != want: bad.append((name, got, want))
+print(bad)
+''' % d
+    r = subprocess.run(["/venv/bin/python", "-c", code], capture_output=True, text=True, timeout=120)
+    out = r.stdout.strip() if r.returncode >= 0 else "crashed with signal %d" % -r.returncode
+    return {"inputs": "a in b == 1 with b a list subclass whose __eq__ answers o == 1; a == b == 1 on equal str operands", "actual": (out or r.stderr[-300:])[:500],
+            "expected": "the truth value CPython computes; no crash", "confirmed": out != "[]", "obligation": getattr(ob, "name", None),
+            "how": "catalogue compiled by the working-tree compiler; called natively"}
+
+
 def units(tier):
     us = []
     for name, objs, post in (("chain_lt", ("a", "b", "c"), _post_obj((LT, LT), ("a", "b", "c"))), ("chain_if", ("a", "b", "c"), _post_if),
@@ -157,6 +220,17 @@ def units(tier):
         u.exec_cls = O.CExecPyObj
         u.replay = _native
         u.concrete_search = lambda ob, regions=(): _native({}, ob)
+        us.append(u)
+    # a link decided by a special C helper (membership, str equality) followed by a link against a C integer literal: the operands handed
+    # to the object comparison must be OBJECTS (obligation ub.integer_cast_to_object_pointer of the object model)
+    for name in ("in_eq_int", "str_eq_int"):
+        u = L3Unit("L3chain.%s" % name, {"C19": None, "C36": ["ub", "pre", "subset"]}, CATALOGUE, name, pyobjs=("a", "b"), callees=_callees(),
+                   ensures=[("NULL is returned exactly when an exception is pending", _post_null)],
+                   options={"merge": False},
+                   subject={"mechanism": "ExprNodes.PrimaryCmpNode.analyse_types (coercion of cascaded operands after a special compare function)"})
+        u.exec_cls = O.CExecPyObj
+        u.replay = _native_int
+        u.concrete_search = lambda ob, regions=(): _native_int({}, ob)
         us.append(u)
     return us
 
